@@ -52,7 +52,33 @@ def quiet():
         sys.stdout = old
 
 
+class Hang(Exception):
+    """a call into the implementation did not return within its time limit"""
+
+
+@contextlib.contextmanager
+def time_limit(seconds: float = 5.0):
+    """turn a non-terminating call into an exception (main thread only)"""
+    import signal
+
+    def handler(sig, frm):
+        raise Hang(f"no return within {seconds}s")
+    try:
+        old = signal.signal(signal.SIGALRM, handler)
+    except ValueError:      # not in the main thread: no watchdog
+        yield
+        return
+    signal.setitimer(signal.ITIMER_REAL, seconds)
+    try:
+        yield
+    finally:
+        signal.setitimer(signal.ITIMER_REAL, 0)
+        signal.signal(signal.SIGALRM, old)
+
+
 def exc_enum(e: BaseException) -> str:
+    if isinstance(e, Hang):
+        return "hang"
     if isinstance(e, AssertionError):
         return "assert"
     if isinstance(e, ZeroDivisionError):
